@@ -226,10 +226,31 @@ def octant (center : V3 α) (b : AABB α) : Nat :=
   let distMax := center.Distance b.Max
   if distMax < distMin then octreeIndex center b.Min else octreeIndex center b.Max
 
-/-- bounds of an inner node / depth-0 leaf (octree.go:213-217): starts from the first
-    element's box and encapsulates every element's box (the first one again). -/
+/-- `math.Nextafter(1, 2) - 1 = 2⁻⁵²` -/
+@[inline] def ulpOne : α := lit 1 4503599627370496
+
+/-- `math.SmallestNonzeroFloat64 = 2⁻¹⁰⁷⁴`, as an exact product of two normal powers of two
+    (`2¹⁰⁷⁴` itself is not a finite float, so `lit 1 (2^1074)` would not do at `Float`) -/
+@[inline] def smallestNonzero : α := lit 1 (2 ^ 537) * lit 1 (2 ^ 537)
+
+/-- The inner `for !Contains(min) || !Contains(max) { Expand; widen *= 2 }` loop for one element box
+    (octree.go:223-231).  State: (bounds, widen).  The Go loop is unbounded; `widen` doubles every turn, so
+    at `Float` the expansion is `+Inf` after fewer than 1200 turns and the loop has ended — `n` is that fuel. -/
+def widenFor (item : AABB α) : Nat → AABB α × α → AABB α × α
+  | 0, st => st
+  | n + 1, (b, w) =>
+    if b.Contains item.Min && b.Contains item.Max then (b, w)
+    else
+      let size := b.Size.MaxComponent + b.Center.Abs.MaxComponent
+      widenFor item n (b.Expand (max (size * w) smallestNonzero), w * ((2 : Nat) : α))
+
+def widenFuel : Nat := 1200
+
+/-- bounds of an inner node / depth-0 leaf (octree.go:213-231): start from the first element's box,
+    encapsulate every element's box (the first one again), then widen until every element box is contained. -/
 def boundsOf (boxOf : E → AABB α) (e0 : E) (es : List E) : AABB α :=
-  es.foldl (fun b e => b.EncapsulateBounds (boxOf e)) (boxOf e0)
+  let b := es.foldl (fun b e => b.EncapsulateBounds (boxOf e)) (boxOf e0)
+  (es.foldl (fun st e => widenFor (boxOf e) widenFuel st) (b, ulpOne)).1
 
 /-- `newOctree` (octree.go:199-299); `none` = the nil tree of an empty element list.
     `leftOver` is always empty in the Go code, so inner nodes hold no elements. -/
